@@ -137,12 +137,23 @@ class RmwProbe(e2.Probe):
 class CasProbe(e2.Probe):
     """_Bool fn(_Atomic T *p, T *exp, T des) { return atomic_compare_exchange_strong(p, exp, des); }"""
 
-    def __init__(self, key, fn, t, weak=False):
+    def __init__(self, key, fn, t, weak=False, callarg=False):
         self.key, self.fn, self.family, self.t = key, fn, "cas", t
         self.cell = "cell_%s" % fn
         self.exp = "exp_%s" % fn
-        self.csrc = ("#include <stdatomic.h>\n_Bool %s(_Atomic %s *p, %s *e, %s d) { return atomic_compare_exchange_%s(p, e, d); }\n"
-                     % (fn, t.name, t.name, t.name, "weak" if weak else "strong"))
+        self.callarg = callarg
+        if callarg:
+            # the desired value is computed by a call with five integer arguments (every argument register incl. %r8 and
+            # the caller-saved scratch registers are overwritten while it is evaluated); the callee is in the same file
+            # and is executed by the executor (inline), so memory is not havocked
+            self.csrc = ("#include <stdatomic.h>\nstatic %s dd_%s(%s d, long a, long b, long c, long e) { return d + a + e - 6; }\n"
+                         "_Bool %s(_Atomic %s *p, %s *e, %s d) { return atomic_compare_exchange_%s(p, e, dd_%s(d, 1, 2, 3, 5)); }\n"
+                         % (t.name, fn, t.name, fn, t.name, t.name, t.name, "weak" if weak else "strong", fn))
+            self.inline = "*"
+            self.max_visits = 8
+        else:
+            self.csrc = ("#include <stdatomic.h>\n_Bool %s(_Atomic %s *p, %s *e, %s d) { return atomic_compare_exchange_%s(p, e, d); }\n"
+                         % (fn, t.name, t.name, t.name, "weak" if weak else "strong"))
         self.volatile = [self.cell]
 
     def init(self, M, s):
@@ -250,6 +261,7 @@ def mk_probes(tier, only=None):
         for t in TYPES:
             P.append(CasProbe("cas/strong/%s" % t.cid, fn(), t))
             P.append(CasProbe("cas/weak/%s" % t.cid, fn(), t, weak=True))
+            P.append(CasProbe("cas/desired-from-call/%s" % t.cid, fn(), t, callarg=True))
     if want("member"):
         # an _Atomic member of a struct
         for t in [INT, LONG, UCHAR]:
